@@ -9,8 +9,10 @@
     Component ids of [r2_cfg]: 0,1,2 plain; 3,4 relation components; 5 pointer-bearing; 6 zero-size;
     7 zero-size relation. Handles are indices into the list of issued handles; -1 is the zero entity.
 
-    The NEGATIVE examples at the end document states in which a clause one would expect is false
-    (each with the script that reaches it). *)
+    The NEGATIVE examples at the end are the scripts with which this validation found defects (a
+    clause of the invariant false in a reachable state). N1, N1', N2, N2' were repaired in the Go code
+    and in the model, so they now document that the invariant holds throughout; N3 is a precondition
+    violation that only exists in the model. *)
 From Ark Require Import Model.Base Model.Mask Model.Pool Model.Util Model.World Model.Run.
 From Ark Require Import Proofs.WF Proofs.StorageA Proofs.Rel2Defs Properties.Common.
 Open Scope Z_scope.
@@ -259,29 +261,34 @@ Proof. apply st2_b_sound. vm_compute. reflexivity. Qed.
 Theorem r2_St2_s8 : St2 (exec r2_cfg (firstn 9 r2_s8)).
 Proof. apply st2_b_sound. vm_compute. reflexivity. Qed.
 
-(** ** NEGATIVE examples: where an expected clause is false *)
+(** ** NEGATIVE examples: scripts that exhibited defects (N1, N1', N2, N2': repaired since) *)
 
-(** N1. A batch operation that panics half-way keeps the world locked for ever (the lock bit is
-    never returned) and leaves tables whose targets were never registered: [TargetFlagsG] (check 28)
-    is false from then on; everything else still holds. ExchangeBatch: the first source table is
-    fine, the second already has the component. Every later mutating call is rejected as locked
-    (Shrink is not), so the unflagged target can never die. *)
+(** N1. (REPAIRED.) A batch operation that panics half-way. Before the repairs this script exhibited
+    two defects, both found by this validation: (a) the panicking batch kept the world locked for
+    ever (the lock bit was never returned), and (b) it left tables whose targets were never
+    registered, so that [TargetFlagsG] (check 28) was false from then on. Both were repaired in
+    the Go code and mirrored in the model: the batch bodies run under [with_deferred_unlock] (the
+    lock bit is released while the panic unwinds), and [create_table] registers the targets together
+    with their table. ExchangeBatch: the first source table is fine, the second already has the
+    component, so the call still panics (flag 1); but now the invariant holds in the state it
+    leaves, the world is unlocked and the later calls succeed. *)
 Definition r2_n1 : list (list Z) :=
   [[0]; [0]; [15; 0; 1;3; 0; 0; 0]; [2; 1;3; 1; 3;0]; [2; 2;3;4; 2; 3;0; 4;0];
    [31; 0; 0; 1;4; 0; 1; 4;1; 0]; [0]; [11; 1]; [14; 0]; [13]].
 Example r2_neg_1 : r2_trace r2_cfg (init_world r2_cfg) r2_n1 =
   [(0, []); (0, []); (0, []); (0, []); (0, []);
-   (1, [28%nat]); (1, [28%nat]); (1, [28%nat]); (0, [28%nat]); (1, [28%nat])].
+   (1, []); (0, []); (0, []); (0, []); (0, [])].
 Proof. vm_compute. reflexivity. Qed.
 
-(** N1'. SetRelationsBatch registers the new targets only after ALL tables were processed; if a later
-    table lacks the component, the entities of the earlier tables already sit in a table with an
-    unregistered target (world locked for ever, as above). *)
+(** N1'. (REPAIRED.) SetRelationsBatch used to register the new targets only after ALL tables were
+    processed; if a later table lacked the component, the entities of the earlier tables already sat
+    in a table with an unregistered target, and the world stayed locked for ever. After the same two
+    repairs the call still panics (flag 1), the invariant holds afterwards and the world is usable. *)
 Definition r2_n1' : list (list Z) :=
   [[0]; [0]; [15; 0; 1;3; 0; 0; 0]; [2; 2;3;4; 2; 3;0; 4;0]; [2; 1;3; 1; 3;0];
    [32; 0; 0; 1;4; 1; 4;1]; [0]; [14; 0]].
 Example r2_neg_1' : r2_trace r2_cfg (init_world r2_cfg) r2_n1' =
-  [(0, []); (0, []); (0, []); (0, []); (0, []); (1, [28%nat]); (1, [28%nat]); (0, [28%nat])].
+  [(0, []); (0, []); (0, []); (0, []); (0, []); (1, []); (0, []); (0, [])].
 Proof. vm_compute. reflexivity. Qed.
 
 (** N2. The same relation component twice in one call. Before the repair (/repo fix a3c3b99,
@@ -303,12 +310,20 @@ Proof. vm_compute. reflexivity. Qed.
 
 (** N3. (Model only: the Go UnsafeFilter has no Register.) A registered unsafe filter whose fixed
     relation names a component outside its mask ([ci_entry], check 30, false) makes createTable
-    panic INSIDE cache_add_table, after the table was added to the archetype: the table's target is
-    never registered (28), dies undetected (29), and every later creation of a matching relation
+    panic INSIDE cache_add_table, after the table was added to the archetype. Since [create_table]
+    registers the targets BEFORE it touches the table lists, the table's target is registered all
+    the same: checks 28 and 29, which this script used to break as well, hold now; only the
+    precondition violation itself (30) persists, and every later creation of a matching relation
     table panics again. *)
 Definition r2_n3 : list (list Z) :=
   [[0]; [15; 1; 1;0; 0; 0; 1; 4;0]; [16; 0]; [2; 2;0;3; 1; 3;0]; [0]; [11; 0]; [2; 2;0;3; 1; 3;1]].
 Example r2_neg_3 : r2_trace r2_cfg (init_world r2_cfg) r2_n3 =
-  [(0, []); (0, []); (0, [30%nat]); (1, [28%nat; 30%nat]); (0, [28%nat; 30%nat]);
-   (0, [28%nat; 29%nat; 30%nat]); (1, [28%nat; 29%nat; 30%nat])].
+  [(0, []); (0, []); (0, [30%nat]); (1, [30%nat]); (0, [30%nat]);
+   (0, [30%nat]); (1, [30%nat])].
 Proof. vm_compute. reflexivity. Qed.
+
+Definition r2_check_all :=
+  (r2_check_1, r2_check_1_recycles, r2_check_2, r2_check_3, r2_check_4, r2_check_5, r2_check_6, r2_check_7,
+   r2_check_8, r2_check_8_detached, r2_check_9, r2_check_10, r2_check_11, r2_check_12a, r2_check_12b, r2_check_12c,
+   r2_St2_s1, r2_St2_s2, r2_St2_s3, r2_St2_s8, r2_neg_1, r2_neg_1', r2_neg_2, r2_neg_2', r2_neg_3).
+Print Assumptions r2_check_all.
